@@ -41,6 +41,7 @@ def configs(tier):
     for first in range(4):
         for mx in ((8,) if quick else (8, 16)):
             out.append(dict(group="wraphist", first=first, max=mx, ncalls=3 if quick else 4))
+        out.append(dict(group="wraphist", first=first, max=16, ncalls=3, B=3))  # 3 sites x 2 haplotypes; interval None / head / tail
     for G in ([[0, 0], [0, 1]], [[0, 1], [1, 0]], [[1, 1], [1, 1]]):
         for size in (4, 64):
             out.append(dict(group="transparent", G=G, max_size=size))
@@ -133,6 +134,16 @@ def _run_arraymap(c, col):
 # ------------------------------------------------------------------ 2. cached wrappers
 
 
+def _wraphist_universe(B):
+    """(genotypes as flat tuples, first genotypes, (index vector, interval) of the structural variants)"""
+    if B == 2:
+        genos = list(itertools.product(range(2), repeat=4))
+        return genos, [genos[0], genos[5], genos[10], genos[15]], [([1, 0], [0, 1])]
+    # more sites than haplotypes (the usual case), whole-genotype (interval None) and tail intervals
+    genos = [(0, 0, 0, 0, 0, 0), (0, 0, 0, 0, 0, 1), (0, 0, 1, 0, 0, 0), (0, 1, 0, 0, 0, 1), (0, 1, 1, 1, 0, 0), (1, 1, 0, 0, 0, 1), (1, 1, 1, 1, 1, 0), (1, 0, 1, 0, 1, 0)]
+    return genos, [genos[0], genos[1], genos[4], genos[7]], [([1, 1], None), ([1, 0], [0, 1]), ([1, 0], [1, 3])]
+
+
 def _run_wraphist(c, col):
     """log_likelihood_cached / log_likelihood_structural_change_cached over the real arraymap (tiny: every second insertion
     overflows): after any history of calls the value returned for a genotype is that genotype's likelihood"""
@@ -141,14 +152,17 @@ def _run_wraphist(c, col):
     am = E.load("mchap.assemble.arraymap")
     ju = E.load("mchap.jitutils")
     site = "mchap.assemble.likelihood.log_likelihood_structural_change_cached"
-    P, B = 2, 2
-    genos = list(itertools.product(range(2), repeat=P * B))
+    P, B = 2, int(c.get("B", 2))
+    genos, firsts, IVS = _wraphist_universe(B)
 
     def key_of(g):
         return tuple(int(x) for x in rnp.asarray(g).ravel())
 
     def Lv(k):
-        return z3.Real("L_" + "".join(map(str, k)))
+        # one unknown per genotype as a MULTISET of haplotypes: the likelihood does not depend on their order (C04), so a
+        # rearrangement that only permutes whole haplotypes legitimately shares its entry
+        rows = sorted(tuple(k[i * B:(i + 1) * B]) for i in range(P))
+        return z3.Real("L_" + "_".join("".join(map(str, r)) for r in rows))
 
     def stub_llk(reads, genotype, read_counts=None):
         return E.np.log(E.SymReal(Lv(key_of(genotype))))
@@ -160,8 +174,6 @@ def _run_wraphist(c, col):
 
     lk.log_likelihood = stub_llk
     lk.log_likelihood_structural_change = stub_llk_sc
-    idx, iv = rnp.array([1, 0]), rnp.array([0, 1])
-    firsts = [genos[0], genos[5], genos[10], genos[15]]
 
     def body(ctx):
         for k in genos:
@@ -170,19 +182,24 @@ def _run_wraphist(c, col):
         res = []
         for i in range(c["ncalls"]):
             gi = genos.index(firsts[c["first"]]) if i == 0 else E.enum_int(ctx, "g%d" % i, 0, len(genos) - 1)
-            variant = 0 if i == 0 else int(E.SymInt(E.fresh_int(ctx, "v%d" % i, 0, 1)))
+            variant = 0 if i == 0 else int(E.SymInt(E.fresh_int(ctx, "v%d" % i, 0, len(IVS))))
             G = rnp.array(genos[gi], dtype=rnp.int8).reshape(P, B)
             if variant == 0:
                 out, cache = lk.log_likelihood_cached(None, G, None, cache)
                 target = key_of(G)
+                label = "plain"
             else:
-                out, cache = lk.log_likelihood_structural_change_cached(None, G, idx, iv, None, cache)
+                ix, iv = IVS[variant - 1]
+                idx = rnp.array(ix)
+                iva = None if iv is None else rnp.array(iv)
+                out, cache = lk.log_likelihood_structural_change_cached(None, G, idx, iva, None, cache)
                 g2 = G.copy()
-                ju.structural_change(g2, idx, iv)
+                ju.structural_change(g2, idx, iva)
                 target = key_of(g2)
-            if not any((G2 == G).all() for G2 in [rnp.array(genos[gi], dtype=rnp.int8).reshape(P, B)]):
+                label = "sc:%s:%s" % ("".join(map(str, ix)), "none" if iv is None else "%d-%d" % tuple(iv))
+            if not (G == rnp.array(genos[gi], dtype=rnp.int8).reshape(P, B)).all():
                 raise AssertionError("wrapper modified the caller's genotype")
-            res.append((["plain", "sc"][variant], list(genos[gi]), target, out))
+            res.append((label, list(genos[gi]), target, out))
         return res
 
     first = True
@@ -735,15 +752,18 @@ def _replay_wraphist(v):
     from mchap import jitutils as rj
 
     w = v["witness"]
-    reads = rnp.array([[[0.9, 0.1], [0.8, 0.2]], [[0.3, 0.7], [0.6, 0.4]], [[0.55, 0.45], [0.2, 0.8]]])
-    cache = ram.new(4, 2, initial_size=2, max_size=int(w.get("max_size", 8)))
-    idx, iv = rnp.array([1, 0]), rnp.array([0, 1])
+    B = int(v["config"].get("B", 2))
+    reads = rnp.array([[[0.9, 0.1], [0.8, 0.2], [0.35, 0.65]], [[0.3, 0.7], [0.6, 0.4], [0.15, 0.85]], [[0.55, 0.45], [0.2, 0.8], [0.7, 0.3]]])[:, :B, :].copy()
+    cache = ram.new(2 * B, 2, initial_size=2, max_size=int(w.get("max_size", 8)))
     for variant, g in w["history"]:
-        G = rnp.array(g, dtype=rnp.int8).reshape(2, 2)
+        G = rnp.array(g, dtype=rnp.int8).reshape(2, B)
         if variant == "plain":
             got, cache = rl.log_likelihood_cached(reads, G, None, cache)
             want = rl.log_likelihood(reads, G)
         else:
+            _, ixs, tag = variant.split(":")
+            idx = rnp.array([int(x) for x in ixs])
+            iv = None if tag == "none" else rnp.array([int(x) for x in tag.split("-")])
             got, cache = rl.log_likelihood_structural_change_cached(reads, G, idx, iv, None, cache)
             g2 = G.copy()
             rj.structural_change(g2, idx, iv)
